@@ -96,7 +96,9 @@ pub fn run(ctx: &Ctx) {
     }
     let mut by_version: std::collections::BTreeMap<(String, String, Vec<u8>), Vec<(String, String)>> = Default::default();
     for b in &bs {
-        let kps = tok::keypairs(b, &mut g, 2);
+        let mut kps = tok::keypairs(b, &mut g, 2);
+        // valid keys whose encodings begin / end with white space, NUL, 0xff, and (v3) whose x coordinate has a leading zero byte
+        kps.extend(tok::edge_keypairs(b, &mut g));
         let mut keys: Vec<(&str, Vec<u8>, String)> = vec![("local", g.bytes(32), "parsed".into()), ("local", vec![0u8; 32], "zeros".into())];
         if let Ok(k) = (b.local_random)() {
             keys.push(("local", k, "random()".into()));
@@ -224,7 +226,7 @@ pub fn run(ctx: &Ctx) {
     for (x, y) in [("v3", "v3-aws-lc"), ("v4", "v4-sodium")] {
         let bx = bs.iter().find(|b| b.name == x).unwrap();
         let by = bs.iter().find(|b| b.name == y).unwrap();
-        for kp in tok::keypairs(bx, &mut g, 2) {
+        for kp in tok::keypairs(bx, &mut g, 2).into_iter().chain(tok::edge_keypairs(bx, &mut g)) {
             for (kind, bytes) in [("secret", &kp.sk), ("public", &kp.pk)] {
                 rep.evaluations += 1;
                 let a = (bx.key_id)(kind, bytes);
